@@ -1,10 +1,73 @@
-; Spec functions: the independent statement of the documented formats and rules.
+; Spec functions: the independent statement of the documented formats and rules
+; (specs/withdrawal_proving.md, specs/l2_output_oracle.md and the property statements).
 ; Everything here is over primitive sorts (Int, Bool, Bytes, Opt, Pair, arrays).
+; "; literal" directives bind Go string literals to the named constants declared here.
 
+; literal "ophost" LIT_ophost
+; literal "opchild" LIT_opchild
+; literal "l2/" LIT_l2prefix
+(declare-const LIT_ophost Bytes)
+(declare-const LIT_opchild Bytes)
+(declare-const LIT_l2prefix Bytes)
+(assert (= (blen LIT_ophost) 6))
+(assert (= (blen LIT_opchild) 7))
+(assert (= (blen LIT_l2prefix) 3))
+
+; ---- uninterpreted library functions (assumed pure; see the assumption ledger) ----
+(declare-fun be64 (Int) Bytes)                 ; 8 big-endian bytes of a uint64
+(declare-fun le64 (Int) Bytes)
+(declare-fun be32 (Int) Bytes)
+(declare-fun b1 (Int) Bytes)
+(declare-fun bslice (Bytes Int Int) Bytes)
+(declare-fun bcmp (Bytes Bytes) Int)           ; bytes.Compare
+(declare-fun bat (Bytes Int) Int)
+(declare-fun fmtU64 (Int) Bytes)               ; strconv.FormatUint(x,10)
+(declare-fun fmtBool (Bool) Bytes)
+(declare-fun intStr (Int) Bytes)               ; math.Int.String
+(declare-fun hexenc (Bytes) Bytes)             ; hex.EncodeToString
+(declare-fun addrOK (Int Bytes) Bool)          ; codec id, bech32 string
+(declare-fun addrBytes (Int Bytes) Bytes)
+(declare-fun addrModule (Bytes Bytes) Bytes)   ; address.Module(name, derivation key)
+(declare-fun moduleAddr (Bytes) Bytes)         ; authtypes.NewModuleAddress(name)
+(declare-fun validDenom (Bytes) Bool)
+(declare-fun sprintf._s_x (Bytes Bytes) Bytes)   ; fmt.Sprintf("%s%x", a, b)
+
+; SHA3-256 over a concatenation of fields; the symbol records the layout (order, widths, endianness)
+(declare-fun sha3.var (Bytes) Bytes)
+(declare-fun sha3.b32 (Bytes) Bytes)
+(declare-fun sha3.b32.b32 (Bytes Bytes) Bytes)
+(declare-fun sha3.u64.var (Int Bytes) Bytes)
+(declare-fun sha3.byte.b32.b32 (Int Bytes Bytes) Bytes)
+(declare-fun sha3.u64.u64.b32.b32.b32.u64 (Int Int Bytes Bytes Bytes Int) Bytes)
+
+; ---- time / finality -------------------------------------------------------------------
 ; an output proposed at l1time (ns) under a period (ns) is final at block time now (ns):
 ; comparison at one-second granularity, exactly as the property states it
 (define-fun isFinal ((now Int) (l1time Int) (period Int)) Bool
   (>= (div now 1000000000) (div (+ l1time period) 1000000000)))
 
 ; counters stored in maps start at 1 when absent
-(define-fun nextOr1 ((o (Opt Int))) Int (ite ((_ is Some) o) (val o) 1))
+(define-fun nextOr1 ((o (Opt Int))) Int (ite (= o (as None (Opt Int))) 1 (val o)))
+; collections.Sequence: stored 0 (or absent) means "1 is next"
+(define-fun seqOr1 ((v Int)) Int (ite (= v 0) 1 v))
+
+; ---- bank ---------------------------------------------------------------------------------
+(define-fun transfer ((bal (Array (Pair Bytes Bytes) Int)) (from Bytes) (to Bytes) (d Bytes) (a Int)) (Array (Pair Bytes Bytes) Int)
+  (let ((b1 (store bal (mkpair from d) (- (select bal (mkpair from d)) a))))
+    (store b1 (mkpair to d) (+ (select b1 (mkpair to d)) a))))
+
+; ---- identifiers and commitments (published formats) -------------------------------------------
+; bridge escrow address = address.Module("ophost", big-endian 8 bytes of the bridge id)
+(define-fun bridgeAddr ((b Int)) Bytes (addrModule LIT_ophost (be64 b)))
+; L2 denom = "l2/" ++ lowercase hex of sha3( be64(bridge id) ++ utf8(l1 denom) )
+(define-fun l2denom ((b Int) (d Bytes)) Bytes (sprintf._s_x LIT_l2prefix (sha3.u64.var b d)))
+; withdrawal leaf = sha3(sha3( be64 bridge ++ be64 seq ++ sha3(sender) ++ sha3(receiver) ++ sha3(denom) ++ be64 amount ))
+(define-fun leaf ((b Int) (s Int) (from Bytes) (to Bytes) (d Bytes) (a Int)) Bytes
+  (sha3.b32 (sha3.u64.u64.b32.b32.b32.u64 b s (sha3.var from) (sha3.var to) (sha3.var d) a)))
+; inner node = sha3( min(a,b) ++ max(a,b) ) under the lexicographic byte order
+(define-fun node ((a Bytes) (b Bytes)) Bytes (ite (>= (bcmp a b) 0) (sha3.b32.b32 b a) (sha3.b32.b32 a b)))
+; output root = sha3( version byte ++ storage root (32) ++ last block hash (32) )
+(define-fun outputRoot ((v Int) (sr Bytes) (lbh Bytes)) Bytes (sha3.byte.b32.b32 v sr lbh))
+; root from a proof: fold the leaf through the sibling list with the node rule
+(define-fun-rec foldNode ((d Bytes) (p (Array Int Bytes)) (n Int)) Bytes
+  (ite (<= n 0) d (node (foldNode d p (- n 1)) (select p (- n 1)))))
